@@ -143,7 +143,9 @@ def run_scenario(sc):
             simu._Set_solutions(pt, u_n, v_n, a_n)
             ut, vt, at = simu._Solver_Evaluate_u_v_a_for_time_scheme(pt, x.copy())
             up = simu._Solver_Update_solutions(pt, x.copy())
-            d = np.array([((3 * i) % 7 - 3) / 4.0 for i in range(x.size)])
+            mag = float(np.max(np.abs(x))) if x.size else 0.0
+            p2 = 2.0 ** int(np.floor(np.log2(mag))) if mag > 0 and np.isfinite(mag) else 1.0   # probe of the unknown's own size
+            d = np.array([((3 * i) % 7 - 3) / 4.0 for i in range(x.size)]) * p2
             utd, vtd, atd = simu._Solver_Evaluate_u_v_a_for_time_scheme(pt, x + d)
             rec["d"] = fl(d)
             rec["evd"] = [None if t is None else fl(t) for t in (utd, vtd, atd)]
